@@ -35,7 +35,9 @@ def internalOrder (v : Nat) (pk : Parked) (s : St) : List Lbl :=
   (s.ffs.reverse.flatMap fun f =>
     if pk.ffs.contains f.fid then [.ffCheck f.fid] else [.ffCheck f.fid, .ffEnqueue f.fid]) ++
   (if (v / 2) % 2 = 1 then ffStop ++ worker ++ ffExp else worker ++ ffExp ++ ffStop) ++
-  (if pk.sd then [.sdStore] else [.sdStore, .sdClose]) ++ [.sdExporterShutdown, .sdReturnOk]
+  (if pk.sd then [.sdStore] else [.sdStore, .sdClose]) ++ [.sdExporterShutdown, .sdReturnOk] ++
+  -- the Shutdown calls waiting in `Once.Do` return once the winner's function has returned
+  (s.sds.reverse.map fun c => .sdReturnLate c.cid)
 
 def firstEnabled (s : St) : List Lbl → Option St
   | [] => none
@@ -76,29 +78,42 @@ theorem settle_reachable {cap maxB : Nat} {blocking : Bool} (v : Nat) (pk : Park
 /-- script operations of a controlled schedule -/
 inductive Op where
   | end_ (id : Nat)      -- OnEnd of a sampled span (runs in its own goroutine; may block in blocking mode)
+  | endU (id : Nat)      -- OnEnd of an unsampled span: returns at once, nothing is queued or counted
   | gate (ok : Bool)     -- let the exporter call in progress return nil / an error
   | ff (fid : Nat)       -- ForceFlush(ctx) in its own goroutine
-  | sd                   -- Shutdown(ctx) in its own goroutine
+  | sd                   -- Shutdown(ctx) in its own goroutine; any number of them (the first wins `stopOnce`)
   | parkEnd (id : Nat)   -- OnEnd that is parked right after its `stopped` check
   | releaseEnd (id : Nat)
   | parkFF (fid : Nat)   -- ForceFlush parked right after its `stopped` check
   | releaseFF (fid : Nat)
-  | parkSd               -- Shutdown parked right after storing `stopped`
+  | parkSd               -- Shutdown parked right after storing `stopped` (only the call that wins `stopOnce` gets there)
   | releaseSd
 deriving Repr
+
+/-- a Shutdown call: the first one wins `stopOnce` (label `sdCall`), every later one finds the once taken
+(label `sdCallLate` with the next free caller id) -/
+def callShutdown (s : St) : Option St :=
+  if s.sd = .none then step s .sdCall else step s (.sdCallLate s.sds.length)
+
+theorem callShutdown_step (s s' : St) (h : callShutdown s = some s') : ∃ l, step s l = some s' := by
+  unfold callShutdown at h
+  split at h
+  · exact ⟨_, h⟩
+  · exact ⟨_, h⟩
 
 /-- apply an API op: take its first label(s) if enabled; the rest happens in `settle` -/
 def applyOp (ps : Parked × St) : Op → Parked × St
   | .end_ id => match step ps.2 (.accept id) with
     | some s' => ({ ps.1 with sendOrder := ps.1.sendOrder ++ [id] }, s')
     | none => ps                     -- stopped (or id reused): OnEnd returns at once
+  | .endU id => (ps.1, (step ps.2 (.endUnsampled id)).getD ps.2)
   | .gate ok =>
     match ps.2.busy with
-    | some .worker => (ps.1, (step ps.2 .exportEnd).getD ps.2)
+    | some .worker => (ps.1, (step ps.2 (.exportEnd ok)).getD ps.2)
     | some (.ff fid) => (ps.1, (step ps.2 (if ok then .ffExportEndOk fid else .ffExportEndErr fid)).getD ps.2)
     | none => ps
   | .ff fid => (ps.1, (step ps.2 (.ffCall fid)).getD ps.2)
-  | .sd => (ps.1, (step ps.2 .sdCall).getD ps.2)
+  | .sd => (ps.1, (callShutdown ps.2).getD ps.2)
   | .parkEnd id => match step ps.2 (.accept id) with
     | some s' => ({ ps.1 with spans := id :: ps.1.spans }, s')
     | none => ps                     -- already stopped: returns before the hook, nothing is parked
@@ -110,9 +125,12 @@ def applyOp (ps : Parked × St) : Op → Parked × St
     | some s' => if s'.stopped then (ps.1, s') else ({ ps.1 with ffs := fid :: ps.1.ffs }, s')
     | none => ps
   | .releaseFF fid => ({ ps.1 with ffs := ps.1.ffs.filter (· != fid) }, ps.2)
-  | .parkSd => match step ps.2 .sdCall with
-    | some s' => ({ ps.1 with sd := true }, s')
-    | none => ps                     -- not the first Shutdown: sync.Once, nothing is parked
+  | .parkSd =>
+    if ps.2.sd = .none then
+      match step ps.2 .sdCall with
+      | some s' => ({ ps.1 with sd := true }, s')
+      | none => ps
+    else (ps.1, (callShutdown ps.2).getD ps.2)   -- not the first Shutdown: it waits in `Once.Do`, never reaches the hook
   | .releaseSd => ({ ps.1 with sd := false }, ps.2)
 
 theorem applyOp_reachable {cap maxB : Nat} {blocking : Bool} (ps : Parked × St) (op : Op)
@@ -122,9 +140,13 @@ theorem applyOp_reachable {cap maxB : Nat} {blocking : Bool} (ps : Parked × St)
     split
     · rename_i s' hs'; exact Reachable.step _ h hs'
     · exact h
+  case endU id =>
+    cases hs : step ps.2 (.endUnsampled id) with
+    | none => simpa [hs] using h
+    | some s' => simpa [hs] using Reachable.step _ h hs
   case gate ok =>
     split
-    · cases hs : step ps.2 .exportEnd with
+    · cases hs : step ps.2 (.exportEnd ok) with
       | none => simpa [hs] using h
       | some s' => simpa [hs] using Reachable.step _ h hs
     · rename_i fid _
@@ -137,9 +159,11 @@ theorem applyOp_reachable {cap maxB : Nat} {blocking : Bool} (ps : Parked × St)
     | none => simpa [hs] using h
     | some s' => simpa [hs] using Reachable.step _ h hs
   case sd =>
-    cases hs : step ps.2 .sdCall with
+    cases hs : callShutdown ps.2 with
     | none => simpa [hs] using h
-    | some s' => simpa [hs] using Reachable.step _ h hs
+    | some s' =>
+      obtain ⟨l, hl⟩ := callShutdown_step _ _ hs
+      simpa [hs] using Reachable.step l h hl
   case parkEnd id =>
     split
     · rename_i s' hs'; exact Reachable.step _ h hs'
@@ -153,8 +177,14 @@ theorem applyOp_reachable {cap maxB : Nat} {blocking : Bool} (ps : Parked × St)
   case releaseFF fid => exact h
   case parkSd =>
     split
-    · rename_i s' hs'; exact Reachable.step _ h hs'
-    · exact h
+    · split
+      · rename_i s' hs'; exact Reachable.step _ h hs'
+      · exact h
+    · cases hs : callShutdown ps.2 with
+      | none => simpa [hs] using h
+      | some s' =>
+        obtain ⟨l, hl⟩ := callShutdown_step _ _ hs
+        simpa [hs] using Reachable.step l h hl
   case releaseSd => exact h
 
 end Otel.C01
